@@ -18,6 +18,11 @@ package gff
 //@ func strandFromField
 //@   ensures [value] result1 == f
 //@   ensures [c18.refuses] (result2 == nil) == (f == "+" || f == "-" || f == "." || f == "?")
+//@ # column 9: accepted only if every ;-separated item is exactly one tag=value pair
+//@ func attributesFromField
+//@   loop 1:
+//@     invariant forall(j, 0, range_i, splitn(splitat(f, ";", j), "=") == 2)
+//@   ensures [c18.pairs] implies(result2 == nil, forall(j, 0, splitn(f, ";"), splitn(splitat(f, ";", j), "=") == 2))
 //@ # one feature row: nine tab-separated columns; type, start, end, strand and phase are the parsed columns 3, 4, 5, 7, 8
 //@ func featureFromLine
 //@   ensures [c18.columns] implies(result2 == nil, splitn(l, "\t") == 9)
